@@ -461,6 +461,63 @@ def r16_6(rep: Report, idx: Index) -> None:
 
 
 # ---------------------------------------------------------------------------
+def _counter_guard(rep: Report, rid: str, construct: str, fn: ast.FunctionDef, after_line: int) -> None:
+    """`code >= 500 and <count> is not None and increment(..) > <count>` then reset + continue,
+    where <count> is options.failureCount (possibly through a local alias)"""
+    alias = {'options.failureCount'}
+    for a in ast.walk(fn):
+        if isinstance(a, (ast.Assign, ast.AnnAssign)) and a.value is not None \
+                and norm(a.value) == 'options.failureCount':
+            tg = a.targets[0] if isinstance(a, ast.Assign) else a.target
+            alias.add(norm(tg))
+    incs = [n for n in ast.walk(fn) if isinstance(n, ast.Call)
+            and call_name(n) == 'self.increment_error_counter']
+    if not incs:
+        rep.fail(rid, construct, 'failure counter', 'the failure counter is never incremented', fn)
+        return
+    for n in incs:
+        guard = None
+        for a in ancestors(n):
+            if isinstance(a, ast.If):
+                guard = a
+                break
+        if guard is None or not isinstance(guard.test, ast.BoolOp) or not isinstance(guard.test.op, ast.And):
+            rep.fail(rid, construct, 'counter only for the addressed request',
+                     'the failure counter is not incremented inside the `code >= 500 and ...` guard', n)
+            continue
+        ops = guard.test.values
+        texts = [norm(o) for o in ops]
+        has_5xx = any(t == 'code >= 500' for t in texts)
+        presence = [o for o in ops if any(al in norm(o) for al in alias)
+                    and 'increment_error_counter' not in norm(o)]
+        cmp_ok = any(isinstance(o, ast.Compare) and 'increment_error_counter' in norm(o.left)
+                     and isinstance(o.ops[0], ast.Gt) and norm(o.comparators[0]) in alias for o in ops)
+        after = n.lineno > after_line
+        if has_5xx and cmp_ok and after:
+            rep.ok(rid, construct, 'counter only for the addressed request')
+        else:
+            rep.fail(rid, construct, 'counter only for the addressed request',
+                     f'counter guard is `{norm(guard.test)[:120]}`: expected `code >= 500 and <failureCount> '
+                     'is not None and increment(..) > <failureCount>` after the selection test', n)
+        if presence and all(isinstance(o, ast.Compare) and isinstance(o.ops[0], ast.IsNot)
+                            and isinstance(o.comparators[0], ast.Constant)
+                            and o.comparators[0].value is None for o in presence):
+            rep.ok(rid, construct, 'failure count of 0 is honoured')
+        else:
+            rep.fail(rid, construct, 'failure count of 0 is honoured',
+                     f'the configured failure count is tested by truthiness in `{norm(guard.test)[:100]}`: '
+                     '`failures=0` (answer 5xx zero times) is treated like "no limit" and the error '
+                     'fires on every request', guard)
+        resets = any(isinstance(c, ast.Call) and call_name(c) == 'self.reset_error_counter'
+                     for c in ast.walk(guard))
+        cont = isinstance(guard.body[-1], ast.Continue)
+        if resets and cont:
+            rep.ok(rid, construct, 'counter reset when exceeded')
+        else:
+            rep.fail(rid, construct, 'counter reset when exceeded',
+                     'exceeding the failure count does not reset the counter and serve the request', guard)
+
+
 def r16_7(rep: Report, idx: Index) -> None:
     rid = 'R16.7'
     mr = f'{RH}/media_requests.py'
@@ -501,26 +558,7 @@ def r16_7(rep: Report, idx: Index) -> None:
     # counter only on matching branch, after the selection test, reset when exceeded
     for name, f2 in (('media', fn), ('manifest', None)):
         pass
-    for n in ast.walk(fn):
-        if isinstance(n, ast.Call) and call_name(n) == 'self.increment_error_counter':
-            after = n.lineno > sel.lineno
-            in_cond = False
-            for a in ancestors(n):
-                if isinstance(a, ast.If) and 'code >= 500' in norm(a.test) \
-                        and 'failureCount' in norm(a.test):
-                    in_cond = True
-                    resets = any(isinstance(c, ast.Call) and call_name(c) == 'self.reset_error_counter'
-                                 for c in ast.walk(a))
-                    if resets:
-                        rep.ok(rid, construct, 'counter reset when exceeded')
-                    else:
-                        rep.fail(rid, construct, 'counter reset when exceeded',
-                                 'failure counter is never reset', a)
-            if after and in_cond:
-                rep.ok(rid, construct, 'counter only for the addressed request')
-            else:
-                rep.fail(rid, construct, 'counter only for the addressed request',
-                         'failure counter is incremented for requests that are not addressed', n)
+    _counter_guard(rep, rid, construct, fn, sel.lineno)
     # response uses the injected code
     rets = [n for n in ast.walk(fn) if isinstance(n, ast.Return) and n.value is not None
             and isinstance(n.value, ast.Call) and call_name(n.value) == 'flask.make_response']
@@ -557,6 +595,7 @@ def r16_7(rep: Report, idx: Index) -> None:
     else:
         rep.fail(rid, mconstruct, 'selected by update count equality',
                  'manifest errors are not selected by equality with the update count', mf)
+    _counter_guard(rep, rid, mconstruct, mf, 0)
     tw = [n for n in ast.walk(mf) if isinstance(n, ast.If) and 'now < tm' in norm(n.test)
           and 'now > tm2' in norm(n.test)]
     if tw and isinstance(tw[0].body[0], ast.Continue):
